@@ -1892,6 +1892,17 @@ func (k *Kernel) handleReplayedHeader(
 		}
 	}
 
+	// The replayed header must extend the header this mirror is committing,
+	// otherwise the committed chain would not be hash-linked.
+	if s.Committing.Height != 0 && !bytes.Equal(header.PrevBlockHash, s.CommittingHeader.Hash) {
+		return tmelink.ReplayedHeaderValidationError{
+			Err: fmt.Errorf(
+				"replayed header previous block hash (%x) differs from committing header hash (%x)",
+				header.PrevBlockHash, s.CommittingHeader.Hash,
+			),
+		}
+	}
+
 	if proof.Round < s.Voting.Round {
 		// There are some edge cases we haven't handled yet with going backwards.
 		// It is a valid case when we saw >2/3 total precommits
